@@ -5,4 +5,4 @@ package channels
 import datatransfer "github.com/filecoin-project/go-data-transfer/v2"
 
 // verifTrace is a no-op unless the library is built with the "verif" tag (see verifhook_on.go).
-func verifTrace(datatransfer.Event, datatransfer.ChannelState) {}
+func verifTrace(*Channels, datatransfer.Event, datatransfer.ChannelState) {}
